@@ -15,3 +15,19 @@ pub proof fn axiom_vec_len_bound<T>(v: &Vec<T>)
     ensures v@.len() <= isize::MAX,
 {
 }
+/// `unreachable!()` / `panic!()` call sites expand to this (macro shadowing, R-fmt): reaching one is a
+/// failed obligation ("precondition not satisfied"), so C01's "no panic" is checked, not assumed.
+#[verifier::external_body]
+pub fn vx_unreachable() -> !
+    requires false,
+{
+    unreachable!()
+}
+/// A VERIFIED no-op (its body is checked, it is not an assumption).  Calls of it are woven in as
+/// "resolution hints": Verus' inference of when a `&mut` parameter's final value is fixed is imprecise
+/// after a `match` arm with an `if` guard whose body mutates through the reference (minimal reproduction
+/// in docs/verus-guard-resolution.rs); touching the reference once in the following arm restores it.
+pub fn vx_noop<T>(x: &mut T)
+    ensures *final(x) == *old(x),
+{
+}
